@@ -629,8 +629,36 @@ def oracle_c13_access(case, reply):
                     bad.append("a positional literal sets the unexported field #%d of package %d" % (name, pkg))
     return ["value expression accepted for package %d although %s" % (want, "; ".join(bad[:3]))] if bad else []
 
+
+def oracle_c01_nameable(case, reply):
+    """an accepted injector signature spells no unexported defined type of another package (restated from the Go rule)"""
+    ws = case["raw"]
+    if ws[0] != "nameable":
+        return []
+    if reply.startswith(("panic", "unparsed", "blowup", "timeout")):
+        return ["%s on %s" % (reply, " ".join(ws))]
+    it = iter(int(x) for x in ws[1:])
+    want = next(it)
+    bad = []
+
+    def walk():
+        tag = next(it)
+        if tag == 0:
+            i, pkg, exported, n = next(it), next(it), next(it), next(it)
+            if pkg != want and not exported:
+                bad.append(i)
+            for _ in range(n):
+                walk()
+        elif tag == 1:
+            for _ in range(next(it)):
+                walk()
+    walk()
+    if reply == "ok" and bad:
+        return ["a signature type is accepted for package %d although it mentions the unexported defined type(s) %s of another package" % (want, bad[:3])]
+    return []
+
 ORACLES = {"C19": oracle_c19, "C09": oracle_c09, "C12": oracle_c12, "C02": oracle_c02, "C05": oracle_c05, "C06": oracle_c06, "C07": oracle_c07,
-           "C08": oracle_c08, "C10": oracle_c10, "C11": oracle_c11_any, "C13": oracle_c13_access}
+           "C08": oracle_c08, "C10": oracle_c10, "C11": oracle_c11_any, "C13": oracle_c13_access, "C01": oracle_c01_nameable}
 
 
 # ---- projections: which part of a reply a property's correspondence compares --------------
@@ -716,7 +744,7 @@ def run_stream(mode, args, timeout=900):
         if meta and meta[-1] == "":
             meta.pop()
         extra = {}
-        if mode in ("rename", "bind", "access"):
+        if mode in ("rename", "bind", "access", "nameable"):
             # sources the harness could not use (a defect of the generator, never of Wire) are counted, not compared
             skip = mode + "-skip"
             keep = [i for i, r in enumerate(reqs) if not r.startswith(skip)]
